@@ -297,7 +297,7 @@ Proof. exact (responder_replay le sc1 sc2 tA tB b h tA' tB'). Qed.
    j <= the watcher's tracker inserts, i.e. anywhere from the purge's commit to just before the watcher's DELETE;
    restart; OConnect of the same block with the node answering sc2.  Outside the recorded class (replay_ok) and with
    stable rejections (rej_stable): the tables are those of the uninterrupted run up to the stamp of unconfirmed
-   trackers.  (Kills before the purge's commit and inside the responder's own statements: not covered.) *)
+   trackers.  (Kills before the purge's commit: C03_replay_connect_before; inside the responder's own statements: not covered.) *)
 Theorem C03_replay_connect le t hash txs sc1 sc2 j tg :
   Inv t -> at_poll_boundary t ->
   not_abort (snd (step le t (OConnect hash txs) sc1)) ->
@@ -309,6 +309,23 @@ Theorem C03_replay_connect le t hash txs sc1 sc2 j tg :
   not_abort (snd (step le (restart t d) (OConnect hash txs) sc2)) ->
   eq_up_to_stamp (db_of (fst (step le (restart t d) (OConnect hash txs) sc2))) (db_of (fst (step le t (OConnect hash txs) sc1))).
 Proof. exact (replay_connect le t hash txs sc1 sc2 j tg). Qed.
+
+(* ... and a kill BEFORE anything of the block is durable (in particular before the purge's commit: the gatekeeper's map
+   reloaded from the unpurged table outdates the same users): the restarted tower holds the tables of before the block *)
+Theorem C03_replay_connect_before le t hash txs sc1 sc2 tg :
+  Inv t -> at_poll_boundary t ->
+  not_abort (snd (step le t (OConnect hash txs) sc1)) ->
+  gk_block_connected (TowerProofs.fresh t) (gk_height t + 1) = Ok tt tg ->
+  replay_ok tg (db_of tg) txs sc1 sc2 -> rej_stable t sc1 sc2 ->
+  not_abort (snd (step le (restart t (db_of t)) (OConnect hash txs) sc2)) ->
+  eq_up_to_stamp (db_of (fst (step le (restart t (db_of t)) (OConnect hash txs) sc2))) (db_of (fst (step le t (OConnect hash txs) sc1))).
+Proof. exact (replay_connect_before le t hash txs sc1 sc2 tg). Qed.
+
+Theorem C03_gatekeeper_replay_before tA h tg tB :
+  Inv tA -> gk_block_connected tA h = Ok tt tg ->
+  cfg tB = cfg tA -> gk_users tB = db_users tA -> db_of tB = db_of tA ->
+  exists tgB, gk_block_connected tB h = Ok tt tgB /\ db_of tgB = db_of tg /\ gk_users tgB = db_users tg.
+Proof. exact (gatekeeper_replay_before tA h tg tB). Qed.
 
 (* every crash index k of the operation is such a statement index *)
 Theorem C03_crash_index_is_statement_index le t o sc k :
@@ -493,3 +510,5 @@ Print Assumptions C03_lkb_written_after_all_blocks.
 Print Assumptions C03_responder_replay.
 Print Assumptions C03_replay_connect.
 Print Assumptions C03_crash_index_is_statement_index.
+Print Assumptions C03_replay_connect_before.
+Print Assumptions C03_gatekeeper_replay_before.
